@@ -157,6 +157,8 @@ def c20(tier, seed):
     for i in range(4):
         jobs.append(Job("inifile-%d" % i, H, ["inifile", i, 4], wraps=W, weight=3))
     jobs.append(Job("inilong", H, ["inilong"], wraps=W, weight=1))
+    jobs.append(Job("acobject", H, ["acobject"], wraps=W, weight=1))
+    jobs.append(Job("o0-acobject", H, ["acobject"], wraps=W, flavour="o0", weight=1))
     for p in range(3):
         jobs.append(Job("actype-%d" % p, H, ["actype", p], wraps=W, weight=4))
     for i in range(4):
@@ -399,16 +401,36 @@ def all_container_jobs(tier):
     return jobs
 
 
+def o0_container_jobs(tier):
+    """the container searches once more at smaller bounds in the unoptimised, uninstrumented build with a dirtied stack
+    (reads of uninitialised automatic variables show their real stack contents there); part of C11 only"""
+    X = tier == "thorough"
+    F = dict(wraps=VA_WRAPS, flavour="o0")
+    jobs = [Job("o0-tree-map-cfg1-U%d" % (10 if X else 9), ["seqmc/tree.c"], ["map", 1, 10 if X else 9, 1], weight=3, **F),
+            Job("o0-tree-map-cfg3-values", ["seqmc/tree.c"], ["map", 3, 5, 3], weight=3, **F),
+            Job("o0-tree-walk-U3", ["seqmc/tree.c"], ["walk", 3, 10, 254], weight=3, **F),
+            Job("o0-tree-walk-bin", ["seqmc/tree.c"], ["walk", 6, 6, 1, 1], weight=3, **F),
+            Job("o0-hashtbl-r2", ["seqmc/hashtbl.c"], [2, 5, 2], weight=2, **F),
+            Job("o0-listtbl-opt03", ["seqmc/listtbl.c"], [3, 3, 3], weight=2, **F), Job("o0-listtbl-opt12", ["seqmc/listtbl.c"], [12, 3, 3], weight=2, **F),
+            Job("o0-listtbl-multi", ["seqmc/listtbl.c"], ["multi", 0], weight=1, **F),
+            Job("o0-list-L4", ["seqmc/list.c"], [4], weight=2, **F), Job("o0-queue-L4", ["seqmc/qsg.c"], ["queue", 4], weight=1, **F),
+            Job("o0-stack-L4", ["seqmc/qsg.c"], ["stack", 4], weight=1, **F), Job("o0-grow-L4", ["seqmc/qsg.c"], ["grow", 4], weight=1, **F),
+            Job("o0-vector-c1-s3-p2", ["seqmc/vector.c"], [1, 3, 2, 4], weight=2, **F), Job("o0-vector-c0-s8-p1", ["seqmc/vector.c"], [0, 8, 1, 4], weight=2, **F),
+            Job("o0-hasharr-M4", ["imagemc/hasharr.c"], [4], weight=4, **F), Job("o0-bigfmt", ["seqmc/bigfmt.c"], ["all"], weight=1, **F)]
+    return jobs
+
+
 @prop("C11", "model_checking",
       "the complete C01-C10 searches (every reachable container state over the bounded universes, every operation from every "
       "state) executed on an ASan+UBSan build with -fno-builtin (memcpy overlap is checked), all caller data in exactly-sized "
       "heap blocks; oracle: zero sanitizer reports on any transition, live-block ledger (--wrap of malloc/calloc/realloc/"
       "strdup/free) back to its start value after free() of the container at the end of every replayed history, static hash "
-      "table region exactly sized and fenced by guard zones",
+      "table region exactly sized and fenced by guard zones; the searches run once more at smaller bounds in an unoptimised, "
+      "uninstrumented build with the stack filled with 0xA5 before every case (uninitialised automatic variables)",
       ["UBSan alignment and nonnull-attribute checks are disabled (MurmurHash3 word loads; memcpy(p, NULL, 0) idiom)"],
       [need("states", 10000), forbid("replay_divergence")], classes=["asan:*", "leak:*", "guard:*"])
 def c11(tier, seed):
-    return all_container_jobs(tier)
+    return all_container_jobs(tier) + o0_container_jobs(tier)
 
 
 @prop("C12", "model_checking",
@@ -466,6 +488,10 @@ def fault_jobs(tier, which):
             jobs.append(Job("ctor-%s" % sname.replace(":", "_"), H, [sname, 0, "ctor"], wraps=FAULT_WRAPS, weight=1))
     if which == "C15":
         jobs.append(Job("ctor-qlog", H, ["qlog", 0, "ctor"], wraps=FAULT_WRAPS, weight=1))
+        # error paths are where variables are most often read before they are set: the plain builds once more unoptimised
+        # and uninstrumented, stack dirtied before every case
+        for sname in ("qtreetbl", "qhashtbl:2", "qlisttbl:1", "qlist", "qvector:2", "qqueue", "qgrow", "qhasharr"):
+            jobs.append(Job("o0-fault-%s" % sname.replace(":", "_"), H, [sname, 0], wraps=FAULT_WRAPS, flavour="o0", weight=3))
     return jobs
 
 
